@@ -327,14 +327,28 @@ static inline unsigned vf_hash(void* p) {
 }
 
 #include <execinfo.h>
+#include <dlfcn.h>
 static int vf_track_callers = 0;
 
 static void* vf_malloc(size_t size) {
   void* caller = 0;
   if (vf_track_callers) {
-    void* bt[4];
-    int nb = backtrace(bt, 4);      // [vf_malloc, mju_malloc, caller, ...]
-    caller = nb > 2 ? bt[2] : 0;
+#if defined(__SANITIZE_ADDRESS__)
+    caller = __builtin_return_address(1);   // frame pointers are kept in the sanitizer flavours
+#elif defined(__has_feature)
+#if __has_feature(address_sanitizer)
+    caller = __builtin_return_address(1);
+#endif
+#endif
+    void* bt[6];
+    int nb = caller ? 0 : backtrace(bt, 6);      // [vf_malloc, mju_malloc, caller, ...] (inlining may shift the frames)
+    for (int i = 1; i < nb; i++) {
+      Dl_info info;
+      if (dladdr(bt[i], &info) && info.dli_sname &&
+          (!strcmp(info.dli_sname, "mju_malloc") || !strcmp(info.dli_sname, "vf_malloc"))) continue;
+      caller = bt[i];
+      break;
+    }
   }
   pthread_mutex_lock(&vf_mu);
   long s = ++vf_serial;
@@ -494,4 +508,12 @@ VF_API void vf_taskhook_uninstall(void) { mjv_taskhook = 0; }
 // out: pre, post, invocations on worker threads (id>0), thread-id bitmask
 VF_API void vf_taskhook_stats(long long* out) {
   out[0] = vf_th_pre; out[1] = vf_th_post; out[2] = vf_th_worker; out[3] = vf_th_mask;
+}
+
+// address and size of a named size field of mjModel (for harness-side edits such as narena before mj_makeData)
+VF_API void* vf_model_size_addr(mjModel* m, const char* name, int* bytes) {
+#define X(nm) if (!strcmp(name, #nm)) { if (bytes) *bytes = (int)sizeof(m->nm); return (void*)&m->nm; }
+  MJMODEL_SIZES
+#undef X
+  return 0;
 }
